@@ -266,7 +266,19 @@ pub fn run_c11(opts: &Opts, out: &mut Emitter) {
             out.case("length-sweep", || json!({"probe": "roundtrip", "origin": format!("{what}:{len}"), "tx": tx_json(&t), "obs": roundtrip_obs(&t)}));
         }
     }
-    // type sweep: a parameter of every `Type`, custom types under names that collide with the spelling of other
+    // name sweep: every name the IR carries (value parameters, input queries, input blocks, custom types, directive
+    // names and field keys) spelled in ways lowering never writes - capitals, mixed case, wide characters, spaces,
+    // the empty name: a decoder hands back the names it was given
+    for name in ["Quantity", "QTY", "mixedCase_1", "Éclair", "with space", "", "ß", "İ", "fees", "collateral", "\u{0}nul"] {
+        use tx3_tir::model::core::Type;
+        let q = tir::InputQuery { address: tir::Expression::None, min_amount: tir::Expression::None, r#ref: tir::Expression::None, many: false, collateral: false };
+        let mut t = empty_tx();
+        t.fees = param(name, Type::Custom(name.to_string()));
+        t.inputs.push(tir::Input { name: name.to_string(), utxos: input_param(name, q.clone()), redeemer: param(name, Type::Int) });
+        t.collateral.push(tir::Collateral { utxos: input_param(&name.to_lowercase(), q) });
+        t.adhoc.push(tir::AdHocDirective { name: name.to_string(), data: std::collections::HashMap::from([(name.to_string(), param(name, Type::Bytes))]) });
+        out.case("name-sweep", || json!({"probe": "roundtrip", "origin": format!("name:{name}"), "tx": tx_json(&t), "obs": roundtrip_obs(&t)}));
+    }
     // things on the wire (the built-in variant names, field names, the empty string)
     {
         use tx3_tir::model::core::Type;
@@ -645,12 +657,21 @@ pub fn emit_tii(src: &str, tag: &str) -> Result<String, String> {
 /// The same with `--profile <name>` flags and `--profile-env-file <name>:<file>` flags (the files are written
 /// from the given texts).
 pub fn emit_tii_with(src: &str, tag: &str, profiles: &[String], env_files: &[(String, String)]) -> Result<String, String> {
+    emit_tii_over(src, tag, profiles, env_files, None)
+}
+
+/// The same onto an output path that already holds `stale` (what an earlier build, of this or of a larger program, left
+/// there): the file written must not depend on it.
+pub fn emit_tii_over(src: &str, tag: &str, profiles: &[String], env_files: &[(String, String)], stale: Option<&[u8]>) -> Result<String, String> {
     let bin = tx3c_bin().ok_or("no tx3c binary")?;
     let dir = std::env::temp_dir().join(format!("tx3verif-{}-{}", std::process::id(), tag));
     std::fs::create_dir_all(&dir).map_err(|e| e.to_string())?;
     let src_path = dir.join("main.tx3");
     let out_path = dir.join("main.tii");
     std::fs::write(&src_path, src).map_err(|e| e.to_string())?;
+    if let Some(old) = stale {
+        std::fs::write(&out_path, old).map_err(|e| e.to_string())?;
+    }
     let mut extra: Vec<String> = vec![];
     for p in profiles {
         extra.push("--profile".into());
@@ -715,7 +736,13 @@ pub fn run_c18(opts: &Opts, out: &mut Emitter) {
             let mut tii_err = Value::Null;
             if tx3c_bin().is_some() && (k % 4 == 0 || opts.thorough) {
                 for j in 0..3 {
-                    match emit_tii(src, &format!("{k}-{j}")) {
+                    // a fresh path, a path holding a much longer file, a path holding a shorter one
+                    let stale: Option<Vec<u8>> = match j {
+                        0 => None,
+                        1 => Some(format!("{{\n  \"stale\": \"{}\"\n}}\n", "x".repeat(300_000)).into_bytes()),
+                        _ => Some(b"{}".to_vec()),
+                    };
+                    match emit_tii_over(src, &format!("{k}-{j}"), &[], &[], stale.as_deref()) {
                         Ok(t) => {
                             tii.insert(t);
                         }
